@@ -337,13 +337,13 @@ func c7Wrappers(c *Ctx) {
 		// the wrapped core: the wrapper's field of type zapcore.Core, whatever it is called (embedded or named)
 		for i := 0; i < st.NumFields(); i++ {
 			if TypeName(st.Field(i).Type()) == "zapcore.Core" {
-				w.coreField = st.Field(i).Name()
+				w.coreField = FN(st.Field(i))
 			}
 		}
 		got := BuiltFields(fn, named)
 		var missing, wrong []string
 		for i := 0; i < st.NumFields(); i++ {
-			f := st.Field(i).Name()
+			f := FN(st.Field(i))
 			bf, ok := got[f]
 			if !ok {
 				missing = append(missing, f)
@@ -647,7 +647,7 @@ func c7Appends(c *Ctx, rule string, fn *ssa.Function) {
 					continue // appending to a slice argument itself is the caller's business (variadic options etc.)
 				}
 				if ownedBy(base, p, 0) {
-					owner = p.Name()
+					owner = PN(p)
 				}
 			}
 			if owner == "" {
@@ -1107,7 +1107,7 @@ func c7AppendsAll(c *Ctx, rule string) {
 			owner := ""
 			for _, p := range top.Params {
 				if ownedBy(s.base, p, 0) {
-					owner = p.Name()
+					owner = PN(p)
 				}
 			}
 			if owner == "" {
